@@ -549,8 +549,46 @@ func changedSince(v ssa.Value, phi *ssa.Phi, seen map[ssa.Value]bool) bool {
 			}
 		}
 		return true
+	case *ssa.Extract:
+		// next, err = l.skip(next): the position a helper of the package hands back after having been given it; every
+		// return of the helper that carries no error returns its parameter plus something
+		if c, ok := x.Tuple.(*ssa.Call); ok {
+			return advancedByHelper(c, x.Index)
+		}
+	case *ssa.Call:
+		return advancedByHelper(x, 0)
 	}
 	return false
+}
+
+// advancedByHelper: the call hands a position to a function of the same package whose result #idx, on every return
+// without an error, is that parameter plus something.
+func advancedByHelper(c *ssa.Call, idx int) bool {
+	cf := calleeOf(&c.Call)
+	if cf == nil || len(cf.Blocks) == 0 || cf.Pkg != c.Parent().Pkg {
+		return false
+	}
+	nres := cf.Signature.Results().Len()
+	okRets := 0
+	for _, ret := range returnsOf(cf) {
+		if idx >= len(ret.Results) {
+			return false
+		}
+		if nres > 1 && isErrorType(cf.Signature.Results().At(nres-1).Type()) && !isNilConst(ret.Results[nres-1]) {
+			continue // an error return: the caller leaves the loop (P-ERRFLOW)
+		}
+		bo, ok := ret.Results[idx].(*ssa.BinOp)
+		if !ok || bo.Op != token.ADD {
+			return false
+		}
+		_, px := bo.X.(*ssa.Parameter)
+		_, py := bo.Y.(*ssa.Parameter)
+		if !px && !py {
+			return false
+		}
+		okRets++
+	}
+	return okRets > 0
 }
 
 func rulePErrCheck(p *Program, r *Reporter) {
